@@ -17,7 +17,7 @@ import ast
 
 from .. import AnalysisError
 from ..cfg import CFG, ENTRY, EXIT, default_may_raise, header_expr
-from ..common import Model, norm, is_self_attr, find_super_init_call
+from ..common import item_list_field, Model, norm, is_self_attr, find_super_init_call
 from ..effects import stores_in
 from ..index import Scope, walk_local, walk_expr
 from ..report import Check
@@ -110,7 +110,7 @@ def r20_1_publish_last(chk):
                 if isinstance(x, ast.Name) and x.id in defs and x.id not in seen:
                     seen.add(x.id)
                     work.append(defs[x.id])
-        chk.require("get_all_eflr_items" in src or "_eflr_item_list" in src, "R20.1", "copy-number-from-registered-items",
+        chk.require("get_all_eflr_items" in src or item_list_field(ix) in src, "R20.1", "copy-number-from-registered-items",
                     "the copy number is not computed from the items registered in the set (a counter consumed by "
                     "rejected calls shifts later copy numbers)", ccn.where)
     # subclasses: nothing fallible after super().__init__
